@@ -57,7 +57,18 @@ func (r *c12run) adversary(pc *PeerConn) {
 	r.advOrder = append(r.advOrder, pc)
 	honestCheck := t.Bool(2, 3)
 	steps := 3 + int(t.Choose(12))
-	send := func(m wire.Message) { pc.Send(m) }
+	send := func(m wire.Message) {
+		// blocks and transactions also travel in the large-message envelope
+		if cmd := m.Command(); (cmd == wire.CmdBlock || cmd == wire.CmdTx) && t.Bool(1, 3) {
+			var buf bytes.Buffer
+			if err := m.BtcEncode(&buf, wire.ProtocolVersion); err == nil {
+				r.c.Probe("extmsg_sent")
+				pc.Send(wire.NewMsgExtended(cmd, buf.Bytes()))
+				return
+			}
+		}
+		pc.Send(m)
+	}
 	for i := 0; i < steps && !pc.Dead && !pc.C.IsClosed(); i++ {
 		simrt.Sleep(time.Duration(1+t.Choose(1500)) * time.Millisecond)
 		best := ns.Trusted.Best
